@@ -227,3 +227,31 @@ _check_before_precision = check
 def check(ctx, run):  # noqa: F811
     _check_before_precision(ctx, run)
     precision_rule(ctx, run)
+
+
+def purity_rule(ctx, run):
+    """R6: pl() and the hedger's P&L methods are functions of their arguments and the current buffers: they leave nothing behind (a memoised
+    cost tensor is reused with another dtype, another device, or after the cost of an instrument changed)."""
+    from ..purity import stores
+    prog, interp = ctx.prog, ctx.interp
+    run.require("C01.R6", 3)
+    fi = E.functional(ctx, "pl")
+    runs = [("pl", fi, interp.explore(fi, [], dict(spot=W.tensor("spot"), unit=W.tensor("unit"), cost=Sym("cost", ("list",)), payoff=W.tensor("payoff")), max_paths=20))]
+    for meth in ("compute_pl", "compute_portfolio"):
+        m = prog.lookup_method(W.HEDGER, meth)
+        hh = W.hedger(prog, [W.feature("Moneyness", log=False)])
+        runs.append((f"Hedger.{meth}", m, interp.explore(m, [W.option()], {"hedge": [Obj(W.PRIMARY, "hA"), Obj(W.PRIMARY, "hB")]}, self_obj=hh)))
+    for label, f_, res in runs:
+        st = [x for x in stores(res) if "prev_output" not in x]
+        run.oblige("C01.R6", f"{label} keeps no state", not st, "; ".join(st))
+        if st:
+            run.fail(Finding("C01.R6", f_.qualname, f"{label}: " + "; ".join(st), "what one evaluation leaves behind (a cached cost tensor) is read by the next one: the P&L then depends on the call history, not only on prices, positions and cost rates",
+                             file=str(prog.modules[f_.module].path), line=f_.node.lineno))
+
+
+_check_before_purity = check
+
+
+def check(ctx, run):  # noqa: F811
+    purity_rule(ctx, run)
+    _check_before_purity(ctx, run)
